@@ -3,6 +3,11 @@
 time to a scratch copy of /repo, run the matching quick checks with
 VERIF_REPO pointing at the copy and require a VIOLATION; the unpatched copy
 must stay silent.  Usage: selftest.py [--only name-substring] [--props C01,C02]
+
+With --benign the behaviour-preserving changes of mutants.json (entries with
+"benign": true: reordered output, other surviving duplicate, multi-line VOLU,
+...) are applied instead and every check must stay silent (exit 0): this is
+the false-alarm side of the self-validation.
 '''
 import argparse
 import json
@@ -13,6 +18,7 @@ import sys
 import tempfile
 
 VERIF = os.path.dirname(os.path.abspath(__file__))
+ALL = [f'C{i:02d}' for i in range(1, 19)]
 
 
 def main():
@@ -21,6 +27,7 @@ def main():
     parser.add_argument('--props')
     parser.add_argument('--tier', default='quick')
     parser.add_argument('--seed', default='1')
+    parser.add_argument('--benign', action='store_true')
     args = parser.parse_args()
     with open(os.path.join(VERIF, 'mutants', 'mutants.json')) as fil:
         mutants = json.load(fil)
@@ -31,7 +38,10 @@ def main():
         for mut in mutants:
             if args.only and args.only not in mut['name']:
                 continue
-            todo = [p for p in mut['props'] if props is None or p in props]
+            if bool(mut.get('benign')) != args.benign:
+                continue
+            pool = ALL if args.benign else mut['props']
+            todo = [p for p in pool if props is None or p in props]
             if not todo:
                 continue
             copy = os.path.join(scratch, 'repo')
@@ -48,16 +58,33 @@ def main():
                 missed.append((mut['name'], 'stale'))
                 continue
             text = text.replace(mut['old'], mut['new'])
-            if 'extra' in mut:
+            if 'extra' in mut and 'file' not in mut['extra']:
                 assert text.count(mut['extra']['old']) == 1
                 text = text.replace(mut['extra']['old'], mut['extra']['new'])
             with open(path, 'w') as fil:
                 fil.write(text)
+            if 'extra' in mut and 'file' in mut['extra']:
+                path2 = os.path.join(copy, mut['extra']['file'])
+                with open(path2) as fil:
+                    text2 = fil.read()
+                assert text2.count(mut['extra']['old']) == 1
+                with open(path2, 'w') as fil:
+                    fil.write(text2.replace(mut['extra']['old'],
+                                            mut['extra']['new']))
             for pid in todo:
                 env = dict(os.environ, VERIF_REPO=copy, VERIF_SEED=args.seed)
                 res = subprocess.run([os.path.join(VERIF, 'check'), pid,
                                       '--tier', args.tier, '--no-evidence'],
                                      env=env, capture_output=True, text=True)
+                if args.benign:
+                    quiet = res.returncode == 0 and 'VIOLATION' not in res.stdout
+                    print(f"{mut['name']:45s} {pid}: "
+                          f"{'quiet' if quiet else 'ALARM (exit %d)' % res.returncode}")
+                    sys.stdout.flush()
+                    if not quiet:
+                        missed.append((mut['name'], pid))
+                        print(res.stdout[-1500:])
+                    continue
                 caught = res.returncode == 1 and 'VIOLATION' in res.stdout
                 print(f"{mut['name']:45s} {pid}: "
                       f"{'caught' if caught else 'MISSED (exit %d)' % res.returncode}")
@@ -68,9 +95,10 @@ def main():
         shutil.rmtree(scratch, ignore_errors=True)
         shutil.rmtree(os.path.join(VERIF, 'replay'), ignore_errors=True)
     if missed:
-        print('MISSED:', missed)
+        print('FALSE ALARMS:' if args.benign else 'MISSED:', missed)
         return 1
-    print('all mutants caught')
+    print('all benign changes left every check quiet' if args.benign
+          else 'all mutants caught')
     return 0
 
 
